@@ -140,6 +140,25 @@ func (s *segment) setupIndex() (err error) {
 			return err
 		}
 	}
+	// The log is ahead of the index if the process died after writing a message
+	// set to the log and before indexing it. Rebuild the index from the log
+	// such that the two agree again. Anything left after the last complete
+	// message set is a partial write, which is dropped.
+	if s.position > indexedEnd(lastEntry) {
+		if err := s.rebuildIndex(); err != nil {
+			return errors.Wrap(err, "failed to rebuild index behind log")
+		}
+		lastEntry, err = s.Index.InitializePosition()
+		if err != nil {
+			return errors.Wrap(err, "failed to initialize rebuilt index")
+		}
+		if end := indexedEnd(lastEntry); s.position > end {
+			if err := s.log.Truncate(end); err != nil {
+				return errors.Wrap(err, "failed to truncate partial message set")
+			}
+			s.position = end
+		}
+	}
 	// If lastEntry is nil, the index is empty.
 	if lastEntry != nil {
 		s.lastOffset = lastEntry.Offset
@@ -153,6 +172,15 @@ func (s *segment) setupIndex() (err error) {
 		s.firstWriteTime = firstEntry.Timestamp
 	}
 	return nil
+}
+
+// indexedEnd returns the position in the log file at which the message set
+// described by the given index entry, the last one of an index, ends.
+func indexedEnd(lastEntry *entry) int64 {
+	if lastEntry == nil {
+		return 0
+	}
+	return lastEntry.Position + int64(lastEntry.Size)
 }
 
 // rebuildIndex rebuilds the index by scanning the log file.
